@@ -236,6 +236,15 @@ class Environment:
         if stop is not None:
             raise stop
 
+    @staticmethod
+    def _disarm(until: Event) -> None:
+        """Withdraw the stop request of an abandoned run() from *until*."""
+        if until.callbacks is not None:
+            try:
+                until.callbacks.remove(StopSimulation.callback)
+            except ValueError:
+                pass
+
     def run(
         self, until: Optional[Union[SimTime, Event]] = None
     ) -> Optional[Any]:
@@ -293,8 +302,15 @@ class Environment:
         except EmptySchedule:
             if until is not None:
                 assert not until.triggered
+                self._disarm(until)
                 raise RuntimeError(
                     f'No scheduled events left but "until" event was not '
                     f'triggered: {until}'
                 )
+        except BaseException:
+            # The run is abandoned (a failure nobody handled): its stop must
+            # not end a later run().
+            if until is not None:
+                self._disarm(until)
+            raise
         return None
